@@ -22,7 +22,7 @@ var c12Mixed = []rune("aé€😀b\ufffd漢𝄞cßд🙂zあ\u0301q")
 var c12Ascii = []rune("abcdefghijklmnop")
 
 var c12Subjects = []string{"array", "objarray", "nested", "ascii", "mixed", "number", "object", "null"}
-var c12Forms = []string{"field", "current", "dot-k", "index0", "pipe0", "flatten", "paren", "then-reverse", "then-step2", "multi", "in-wildcard", "in-flatten", "in-filter", "in-slice", "in-wildcard-nulls", "in-hash", "in-hash-nested", "in-arg", "in-let"}
+var c12Forms = []string{"field", "current", "dot-k", "index0", "pipe0", "flatten", "paren", "then-reverse", "then-step2", "multi", "in-wildcard", "in-flatten", "in-filter", "in-slice", "in-wildcard-nulls", "in-hash", "in-hash-nested", "in-arg", "in-let", "holes-then-all", "pipe", "pipe-in-wildcard"}
 
 func init() {
 	core.Register(&core.Check{
@@ -31,7 +31,7 @@ func init() {
 		Rule: "every (length n, start, stop, step, subject kind, syntactic form) in the stated ranges is executed once through Search on the real code and compared with " +
 			"the specification's slice walk (Python slice.indices) computed overflow-free; inputs are enumerated without repetition; an outcome is non-trivial when it is " +
 			"a non-empty, non-null value, and distinct_nontrivial counts distinct such outcomes",
-		Phases: []core.Phase{{Name: "walk", Build: "instr", Fn: c12Run}},
+		Phases: []core.Phase{{Name: "walk", Build: "instr", Fn: c12Run}, {Name: "long-subjects", Build: "instr", Fn: c12RunLong}},
 		Judge:  func(r *core.Run, phase string, p map[string]any) *core.Violation { return c12Judge(r, p) },
 		Assumptions: []string{
 			"integer literals are within the 64-bit range (larger literals are outside the stated quantifier)",
@@ -127,6 +127,36 @@ func c12Run(r *core.Run) {
 								r.Add("states", 1)
 								r.Violate(c12Judge(r, p))
 							}
+						}
+					}
+				}
+			}
+		}
+	}
+}
+
+// c12RunLong: subjects longer than any compact representation a parser or evaluator might use for small bounds (255,
+// 256, 257, 300 elements) with the bounds around those sizes.
+func c12RunLong(r *core.Run) {
+	core.EnableTicks(c12TickBudget * 10)
+	item := 0
+	for _, n := range []int{255, 256, 257, 300} {
+		vals := []string{absent, "0", "1", "2", "127", "128", "250", "254", "255", "256", "257", "258", "299", "300", "301", "-1", "-2", "-44", "-255", "-256", "-257", "-300", "-301", "65535", "65536"}
+		for _, start := range vals {
+			for _, stop := range vals {
+				item++
+				if !r.Mine(item) {
+					continue
+				}
+				if r.Expired() {
+					return
+				}
+				for _, step := range []string{absent, "1", "2", "-1", "255", "256", "-256"} {
+					for _, subj := range []string{"array", "ascii", "mixed", "objarray"} {
+						for _, form := range []string{"field", "current", "pipe", "pipe-in-wildcard", "in-wildcard", "dot-k", "then-reverse", "in-hash", "holes-then-all"} {
+							p := map[string]any{"n": n, "start": start, "stop": stop, "step": step, "colon2": step != absent, "subject": subj, "form": form}
+							r.Add("states", 1)
+							r.Violate(c12Judge(r, p))
 						}
 					}
 				}
@@ -244,10 +274,15 @@ func c12Build(p map[string]any) (expr string, doc any, exp expectation, abstain 
 		if subj == "mixed" {
 			src = c12Mixed
 		}
-		subject = string(src[:n])
+		at := func(i int) rune { return src[i%len(src)] } // longer subjects repeat the alphabet
+		whole := make([]rune, n)
+		for i := range whole {
+			whole[i] = at(i)
+		}
+		subject = string(whole)
 		var rs []rune
 		for _, i := range idx {
-			rs = append(rs, src[i])
+			rs = append(rs, at(i))
 		}
 		sliced = string(rs)
 	case "number":
@@ -353,6 +388,44 @@ func c12Build(p map[string]any) (expr string, doc any, exp expectation, abstain 
 				// a bare array slice is a projection: nulls are omitted (there are none here)
 				want = sliced
 			}
+		}
+	case "pipe", "pipe-in-wildcard":
+		// the slice applied to the current node: after a pipe, and as the first step of a wildcard's right-hand side
+		if form == "pipe" {
+			expr, doc = "x | "+sl, map[string]any{"x": subject}
+			want = sliced
+		} else {
+			expr, doc = "w[*]"+sl, map[string]any{"w": []any{subject}}
+			switch {
+			case isArray || isString:
+				want = []any{sliced}
+			default:
+				want = []any{}
+			}
+		}
+	case "holes-then-all":
+		// the array has a null at every other position; the slice omits them from its own result and leaves the array alone
+		expr = "[x" + sl + ", x, x" + sl + "]"
+		if isArray {
+			holes := make([]any, n)
+			normHoles := make([]any, n)
+			inner := []any{}
+			for i := range holes {
+				if i%2 == 0 {
+					holes[i] = rawElem(i)
+					normHoles[i] = elem(i)
+				}
+			}
+			for _, i := range idx {
+				if i%2 == 0 {
+					inner = append(inner, elem(i))
+				}
+			}
+			doc = map[string]any{"x": holes}
+			want = []any{inner, normHoles, inner}
+		} else {
+			doc = map[string]any{"x": subject}
+			want = []any{sliced, core.Norm(subject), sliced}
 		}
 	case "in-hash", "in-hash-nested", "in-arg", "in-let":
 		// the slice inside another construct: same value, and a zero step is still reported as an invalid value
